@@ -403,6 +403,9 @@ func init() {
 			{ID: "C03-leaf-agree", Floor: 11, Run: c03LeafAgree, Text: "[LAYOUT]+[FIELDMAP] BridgeExit.Hash ∘ getBridgeExits ≡ Bridge.Hash"},
 			{ID: "C03-order", Floor: 5, Run: c03Order, Text: "order-preserving conversions over an ordered, bounded range query"},
 			{ID: "C03-newler", Floor: 9, Run: c03NewLER, Text: "[PROV] new LER by highest deposit count / previous LER; certificate literal"},
+			{ID: "C03-prev", Floor: 5, Run: shared("C03-prev", c02Next), Text: "(shared with C02-next) previous LER / height derivation from the last certificate's state"},
+			{ID: "C03-cut", Floor: 15, Run: shared("C03-cut", c17Filter, c17Exit), Text: "(shared with C17) a cut certificate holds exactly the events of its cut range; limiter clamp"},
+			{ID: "C03-stateless", Floor: 3, Run: func(c *core.Ctx) { statelessQueriers(c, "C03-stateless") }, Text: "(shared with C09) querier / flow objects are stateless: no memo of chain data survives a reorg"},
 			{ID: "C03-meta", Floor: 14, Run: c03Meta, Text: "[PROV]+[LAYOUT] metadata arguments; codec writer/reader slot tables agree"},
 		},
 	})
